@@ -11,7 +11,7 @@ SPEC = {
     "level": "exploration",
     "design_ref": "DESIGN.md section 5, C15",
     "rule": ("MinGenSet: cases = every non-empty subset of {1..N} of size <= S x every total in 1..sum (totals below the largest number only with max_multiplicity > 1); inside: weight_type x max_multiplicity in {1,2,3,4} x "
-             "lowerbound in {1, min(2, optimum)} x remove_complement_values x remove_sums_of_two x partition constraints (splits of the total into 2 and 3 parts "
+             "lowerbound in {-1, 0, 1, min(2, optimum)} x remove_complement_values x remove_sums_of_two x partition constraints (splits of the total into 2 and 3 parts "
              "drawn from sums of the numbers, three equal parts, and a 3-part plus a 2-part constraint in both orders); oracle: enumerate multisets (partitions of the total into k positive parts) and test every number as a bounded-"
              "multiplicity sub-multiset sum. MinSetCover: every universe of <= U elements x every family of <= M non-empty subsets x weights in {1,2,3}^m "
              "(+ unit / None weights); oracle 2^m brute force. non-trivial = distinct instance with optimum >= 2 that was solved and compared"),
@@ -137,6 +137,9 @@ def run(case):
                                 configs.append((wt, lb, rc, rs, None))
                     for pc in pcs_list[1:]:
                         configs.append((wt, 1, True, False, pc))
+                    # 0 and -1 are (trivially true) lower bounds as well
+                    configs.append((wt, 0, True, False, None))
+                    configs.append((wt, -1, True, False, None))
                 for wt, lb, rc, rs, pc in configs:
                     kk, gg = (k, g) if pc is None else oracle_int(nums, total, m, pc)
                     if kk is None:
